@@ -1,5 +1,6 @@
 import AL.Model.Sema
 import AL.Model.Json
+import AL.Model.Insecure
 import AL.Gen.Builtins
 import AL.Gen.Availability
 /-
@@ -161,6 +162,9 @@ def matrixTy (ev : Ev) : MatrixM → Ty
 inductive PKind where
   /-- `checkString` / `checkScriptString`: a template; objects, arrays and null must not be interpolated -/
   | str
+  /-- `checkScriptString` (a `run:` script, the `script:` input of actions/github-script): a template as well, and
+  untrusted inputs are reported -/
+  | script
   /-- `checkBool`: the type must be bool (or unknown) -/
   | bool
   /-- `checkInt` / `checkFloat` (`checkNumberExpression`): the type must be number (or unknown); `what` is echoed -/
@@ -280,6 +284,12 @@ def typeDiags (k : PKind) (r : R) : List SemaErr :=
       | .arr .. => [err "template-type" [tyStr r.ty]]
       | .null => [err "template-type" [tyStr r.ty]]
       | _ => [])
+    | .script =>
+      (match r.ty with
+      | .obj .. => [err "template-type" [tyStr r.ty]]
+      | .arr .. => [err "template-type" [tyStr r.ty]]
+      | .null => [err "template-type" [tyStr r.ty]]
+      | _ => [])
     | .bool =>
       (match r.ty with
       | .bool => []
@@ -298,9 +308,18 @@ def typeDiags (k : PKind) (r : R) : List SemaErr :=
       | .null => [err "template-type" [tyStr r.ty]]
       | _ => [])
 
+/-- the untrusted-input reports of a script position (`NewExprSemanticsChecker(checkUntrusted = true, …)`): one
+diagnostic per report, naming the path(s) -/
+def untrustedDiags (k : PKind) (r : R) : List SemaErr :=
+  match k with
+  | .script => (AL.Insecure.run AL.Gen.untrustedRoots r.evs).map fun paths => err "untrusted" paths
+  | _ => []
+
 def checkProbe (lower : String → String) (hdr : Header) (jobsTy : Option Ty) (st : St) (p : Probe) : Nat × List SemaErr :=
   let r := check (mkEnv lower hdr jobsTy st p.key) p.e
-  (p.tag, r.errs ++ typeDiags p.kind r)
+  let u := untrustedDiags p.kind r
+  -- an untrusted-input report is a diagnostic of the expression like any other: the type check on top is skipped
+  (p.tag, r.errs ++ u ++ (if u.isEmpty then typeDiags p.kind r else []))
 
 def lookupJob (i : String) : List JobM → Option JobM
   | [] => none
@@ -370,6 +389,69 @@ def jobsTyOf (jobs : List JobM) : Ty :=
     (j.id, Ty.obj [("outputs", match j.call with
       | some _ => emptyLoose
       | none => objOf (j.outputs.map fun o => (o, Ty.string)))] none))
+
+/-! ### the `on:` section (`VisitWorkflowPre`) -/
+
+/-- an input of `workflow_dispatch`: id, type, and its checked strings (description, default, options; no workflow key) -/
+structure DispatchInput where
+  id : String
+  ty : Ty
+  probes : List Probe
+
+/-- an input of `workflow_call`: id, type, and its `default:` (checked before the input itself is in scope) -/
+structure CallInput where
+  id : String
+  ty : Ty
+  dflt : Option Probe
+
+inductive Event where
+  /-- `workflow_dispatch`; the inputs are a Go map: the order of the list is the iteration order -/
+  | dispatch (inputs : List DispatchInput)
+  /-- `workflow_call`; the inputs are a slice in source order; `secrets = none`: the key is absent -/
+  | call (inputs : List CallInput) (secrets : Option (List String))
+  | other
+
+/-- the defaults of `workflow_call` inputs: each is checked with the inputs declared BEFORE it in scope -/
+def runCallDefaults (lower : String → String) (hdr : Header) : List (String × Ty) → List CallInput → Out
+  | _, [] => []
+  | acc, i :: is =>
+    let here := match i.dflt with
+      | some p => [checkProbe lower { hdr with callInputs := some acc } none St.init p]
+      | none => []
+    here ++ runCallDefaults lower hdr (acc ++ [(i.id, i.ty)]) is
+
+/-- one event of `on:`, from the header state the earlier events left -/
+def runEvent (lower : String → String) (hdr : Header) : Event → Header × Out
+  | .other => (hdr, [])
+  | .dispatch ins =>
+    -- `dispatchInputsTy` is assigned after the loop: while the inputs' strings are checked it is what it was before
+    ({ hdr with dispatchInputs := some (ins.map fun i => (i.id, i.ty)) },
+     ins.flatMap fun i => i.probes.map (checkProbe lower hdr none St.init))
+  | .call ins secs =>
+    -- `inputsTy` is the (growing) object from the start of the loop; `secretsTy` is assigned after it
+    let out := runCallDefaults lower { hdr with callInputs := some [] } [] ins
+    ({ hdr with callInputs := some (ins.map fun i => (i.id, i.ty)), callSecrets := match secs with | some s => some s | none => hdr.callSecrets }, out)
+
+def runEvents (lower : String → String) : Header → List Event → Header × Out
+  | hdr, [] => (hdr, [])
+  | hdr, e :: es =>
+    let r := runEvent lower hdr e
+    let r' := runEvents lower r.1 es
+    (r'.1, r.2 ++ r'.2)
+
+/-- the header in effect after `on:` -/
+def headerOf (lower : String → String) (events : List Event) : Header :=
+  (runEvents lower ⟨none, none, none⟩ events).1
+
+/-- a whole workflow from its source: the `on:` events, the workflow-level strings (run-name, env, concurrency — checked
+after `on:`), the jobs, the workflow_call output values -/
+def runSource (lower : String → String) (events : List Event) (top : List Probe) (jobs visitOrder : List JobM)
+    (callOutputs : List Probe) : Out :=
+  let r := runEvents lower ⟨none, none, none⟩ events
+  let hdr := r.1
+  let rj := runJobs lower hdr jobs St.init visitOrder
+  r.2 ++ top.map (checkProbe lower hdr none St.init) ++ rj.2 ++
+    callOutputs.map (checkProbe lower hdr (some (jobsTyOf jobs)) rj.1)
 
 /-- a whole workflow: the jobs in the order the visitor meets them, then the workflow_call output values -/
 def runWorkflow (lower : String → String) (hdr : Header) (jobs visitOrder : List JobM) (callOutputs : List Probe) : Out :=
